@@ -172,20 +172,6 @@ Definition known_f2 (i : chain_in) (o : chain_obs) : bool :=
   | _ => false
   end.
 
-(** Known finding F3: response buffering + 103 Early Hints: the record says
-    103 (and the client is told an implicit 200 instead of the target's status). *)
-Definition known_f3 (i : chain_in) (o : chain_obs) : bool :=
-  ci_buffer i &&
-  match ci_class i, ob_records o, ob_status o with
-  | CServedHints _ _, [r], Some s => (r_status r =? 103) && negb (s =? 103)
-  | _, _, _ => false
-  end.
-Definition with_status (r : record) (s : N) : record :=
-  mkRec (r_host r) (r_port r) (r_path r) (r_request_id r) s (r_service r) (r_target r) (r_method r)
-        (r_req_content_length r) (r_req_content_type r) (r_resp_content_length r) (r_resp_content_type r)
-        (r_client_addr r) (r_client_port r) (r_remote_addr r) (r_user_agent r) (r_proto r) (r_scheme r) (r_query r)
-        (r_extra r).
-
 (** the monitor with the finding's field left out *)
 Definition without_len (r : record) (n : N) : record :=
   mkRec (r_host r) (r_port r) (r_path r) (r_request_id r) (r_status r) (r_service r) (r_target r) (r_method r)
@@ -201,15 +187,14 @@ Definition chain_monitor_modulo (i : chain_in) (o : chain_obs) : bool :=
   match ob_records o with
   | [r] =>
     let r1 := if known_f1 i o then without_len r (ob_body_len o) else r in
-    let r2' := if known_f2 i o then without_date r1 (hget K_date' (ob_headers o)) else r1 in
-    let r2 := if known_f3 i o then with_status r2' (match ob_status o with Some s => s | None => 0 end) else r2' in
+    let r2 := if known_f2 i o then without_date r1 (hget K_date' (ob_headers o)) else r1 in
     chain_monitor i (mkChainObs (ob_status o) (ob_complete o) (ob_body_len o) (ob_headers o) (ob_target_hit o)
                                 (ob_target_rid o) (ob_claimed o) [r2])
   | _ => false
   end.
 
 Definition chain_known (i : chain_in) (o : chain_obs) : list N :=
-  (if known_f1 i o then [1] else []) ++ (if known_f2 i o then [2] else []) ++ (if known_f3 i o then [3] else []).
+  (if known_f1 i o then [1] else []) ++ (if known_f2 i o then [2] else []).
 
 (** *** Comparison with the model's chain *)
 
